@@ -481,7 +481,17 @@ func (r *vC13Run) step(step map[string]interface{}) vC13Event {
 			p := r.p[n]
 			req := r.request(q, step)
 			before := vC13Count(p)
+			// the set of loop goroutines to compare with must hold no goroutine that is on
+			// its way out (subscriberCount is decremented a moment before the goroutine is
+			// gone): wait until every loop goroutine of the process is a counted one
 			loopsBefore := vLoopGoroutines()
+			for dl := time.Now().Add(vC13Deadline); int64(len(loopsBefore)) != vC13Count(r.p["L"])+vC13Count(r.p["F"]); loopsBefore = vLoopGoroutines() {
+				if time.Now().After(dl) {
+					r.t.Fatalf("INCONCLUSIVE: behaviour %d: %d loop goroutines, subscriberCount %d + %d", r.id,
+						len(loopsBefore), vC13Count(r.p["L"]), vC13Count(r.p["F"]))
+				}
+				time.Sleep(50 * time.Microsecond)
+			}
 			exitFirst := vStrDef(step, "first", "exit") == "exit"
 			var (
 				sub    *subscription
